@@ -359,6 +359,20 @@ func inhibitRuleConstructionRule(o *Ob) {
 		}
 		o.Check(n == 1, "equal-fill", "the equal set is not filled from the configuration", sts[0])
 	}
+	// what is built from is what was configured: the loader validates an inhibition rule but does not rewrite it
+	for _, n := range []string{"(*am/config/common.InhibitRule).UnmarshalYAML", "(*am/config/common.InhibitRule).UnmarshalJSON"} {
+		uf := e.byName[long(n)]
+		if uf == nil {
+			o.Check(!strings.HasSuffix(n, "YAML"), "config-loader", n+" not found", nil)
+			continue
+		}
+		o.Site(fnFirst(uf), n+": validates only")
+		for _, w := range e.WritesThroughParam(uf, 0, 1) {
+			o.Fail("config-rewritten|"+n, "the loader changes a decoded inhibition rule ("+w.What+"): the rule evaluated is no longer the one configured", w.Instr)
+		}
+		o.Checks++
+		o.Passed++
+	}
 	// NewInhibitor builds one rule per configured rule
 	ni := o.Fn("am/inhibit.NewInhibitor")
 	c := o.One(e.Calls(ni, "am/inhibit.NewInhibitRule"), "rules", "NewInhibitor must build the rules", ni)
